@@ -59,7 +59,7 @@ type AbsExec struct {
 	Panic   bool
 	Edges   map[Edge]bool // branch edges taken
 	Tested  map[ssa.Value]bool
-	Ret     *ssa.Return   // return of the top function (nil: panic / cut)
+	Ret     *ssa.Return // return of the top function (nil: panic / cut)
 	// RetVals: the returned values, phis replaced by the value they carried; RetKnown/RetBool: a boolean result
 	// determined by the execution
 	RetVals  []ssa.Value
@@ -80,7 +80,7 @@ type absState struct {
 	tupSrc  map[ssa.Value]map[int]ssa.Value
 	inlined map[ssa.Instruction]bool
 	edges   map[Edge]bool
-	tested  map[ssa.Value]bool // values a branch of the analysed function decided on (directly or through ! / == nil / a carried value)
+	tested  map[ssa.Value]bool      // values a branch of the analysed function decided on (directly or through ! / == nil / a carried value)
 	cell    map[*ssa.Alloc]absField // scalar local variables that live in memory (captured by a closure that only reads them)
 	clock   int
 	visit   map[*ssa.BasicBlock]int
